@@ -817,6 +817,14 @@ def evaluate(ctx, r, impl, model, xalan, scale, state):
         ctx.count("T:" + cls)
         if srcflags:
             ctx.count("T:source:" + "+".join(sorted(srcflags)))
+    # results whose byte length sits on / next to the multiples of the stream buffer sizes (C-API data buffer,
+    # callback chunks, file stream): <?xml version="1.0" encoding="UTF-8"?><out>PAD</out> = 49 + len(PAD) bytes
+    exact_sheet = sheet('<xsl:template match="/"><out><xsl:value-of select="/a"/></out></xsl:template>', '<xsl:output method="xml" encoding="UTF-8"/>')
+    totals = [255, 256, 257, 511, 512, 513, 768, 1024, 1025, 2048, 4096, 8192]
+    for i, total in enumerate(r.sample(totals, 6 if scale == 1 else len(totals))):
+        t_cases.append({"id": "tx%d" % i, "sheet": exact_sheet, "src": PI + "<a>" + "".join(r.choice("abcdefgh") for _ in range(total - 49)) + "</a>",
+                        "params": [], "flags": {"x"}, "cls": "exact-size", "srcflags": set(), "seed": r.randrange(1, 1 << 30)})
+        ctx.count("T:exact-size")
     # malformed source: every form must fail
     t_cases.append({"id": "tbad", "sheet": gen_sheet(r)[1], "src": PI + "<a><b></a>", "params": [], "flags": set(), "cls": "malformed-source", "srcflags": set(), "seed": 3})
     lines = [t_line(c["id"], c["seed"], c["sheet"], c["src"], c["params"], c["flags"]) for c in t_cases]
